@@ -125,7 +125,7 @@ func ruleFlatten(w *World, r *Report) {
 	// gate: isBoolOpNode(root.node)
 	gate := false
 	for _, f := range factsAt(st.Block()) {
-		if c, callee := staticCallee(f.Cond); c != nil && callee != nil && callee.Name() == "isBoolOpNode" && f.Truth && isRootNode(c.Call.Args[0]) {
+		if c, callee := staticCallee(f.Cond); c != nil && callee != nil && nm(callee) == "isBoolOpNode" && f.Truth && isRootNode(c.Call.Args[0]) {
 			gate = true
 		}
 	}
@@ -208,13 +208,13 @@ func ruleFlatten(w *World, r *Report) {
 		if base, okb := loadOfField(arg, "astNode", "children"); okb && child(base) {
 			var isBool, sameKind bool
 			for _, f := range facts {
-				if c, callee := staticCallee(f.Cond); c != nil && callee != nil && callee.Name() == "isBoolOpNode" && f.Truth && childNode(c.Call.Args[0]) {
+				if c, callee := staticCallee(f.Cond); c != nil && callee != nil && nm(callee) == "isBoolOpNode" && f.Truth && childNode(c.Call.Args[0]) {
 					isBool = true
 				}
 				if bo, ok := f.Cond.(*ssa.BinOp); ok && ((bo.Op == token.EQL) == f.Truth) && (bo.Op == token.EQL || bo.Op == token.NEQ) {
 					cx, fx := staticCallee(bo.X)
 					cy, fy := staticCallee(bo.Y)
-					if cx != nil && cy != nil && fx != nil && fy != nil && fx == fy && (fx.Name() == "isAndOpNode" || fx.Name() == "isOrOpNode") {
+					if cx != nil && cy != nil && fx != nil && fy != nil && fx == fy && (nm(fx) == "isAndOpNode" || nm(fx) == "isOrOpNode") {
 						a, b := cx.Call.Args[0], cy.Call.Args[0]
 						if (childNode(a) && isRootNode(b)) || (childNode(b) && isRootNode(a)) {
 							sameKind = true
@@ -251,7 +251,7 @@ func ruleOptGate(w *World, r *Report) {
 		var opt ssa.Value
 		if okl {
 			if addr, ok := isLoad(lk.X); ok {
-				if g, ok := addr.(*ssa.Global); ok && g.Name() == "optimizerMap" {
+				if g, ok := addr.(*ssa.Global); ok && nm(g) == "optimizerMap" {
 					fromMap = true
 					opt = lk.Index
 				}
@@ -263,7 +263,7 @@ func ruleOptGate(w *World, r *Report) {
 			if addr, ok := isLoad(opt); ok {
 				if ia, ok := addr.(*ssa.IndexAddr); ok {
 					if a2, ok := isLoad(ia.X); ok {
-						if g, ok := a2.(*ssa.Global); ok && g.Name() == "optimizations" {
+						if g, ok := a2.(*ssa.Global); ok && nm(g) == "optimizations" {
 							if _, okh := rangeIndexHeader(ia.Index, ia.X); okh {
 								ranged = true
 							}
@@ -381,7 +381,7 @@ func mappedGuard(mu *ssa.MapUpdate, key ssa.Value) bool {
 		}
 		if lk, ok := x.(*ssa.Lookup); ok && (lk.Index == key || sameValueShape(lk.Index, key)) {
 			if addr, ok := isLoad(lk.X); ok {
-				if g, ok := addr.(*ssa.Global); ok && g.Name() == "optimizerMap" {
+				if g, ok := addr.(*ssa.Global); ok && nm(g) == "optimizerMap" {
 					return true
 				}
 			}
